@@ -18,6 +18,8 @@ import (
 	"time"
 
 	"github.com/gotd/td/bin"
+	"github.com/gotd/td/mtproxy"
+	"github.com/gotd/td/mtproxy/obfuscated2"
 	"github.com/gotd/td/proto/codec"
 	"github.com/gotd/td/transport"
 	"github.com/gotd/td/verifharness/hx"
@@ -79,6 +81,21 @@ func (f *failConn) Write(p []byte) (int, error) {
 		return n, os.ErrDeadlineExceeded
 	}
 	return f.w.Write(p)
+}
+
+type rwPair struct {
+	io.Reader
+	io.Writer
+}
+
+// swapReader reads from r once it is set (the server's answer is produced after the client wrote)
+type swapReader struct{ r io.Reader }
+
+func (s *swapReader) Read(p []byte) (int, error) {
+	if s.r == nil {
+		return 0, io.EOF
+	}
+	return s.r.Read(p)
 }
 
 type oneListener struct {
@@ -647,6 +664,81 @@ func main() {
 		}
 	}
 
+	// obfStack: "with obfuscation": a client that chose a tagged codec speaks obfuscated2 (the codec's
+	// ObfuscatedTag in the header, frames without a plain tag); the server is the real TCP path
+	// transport.Listen(transport.ObfuscatedListener(listener)) with codec auto-detection. Frames must
+	// arrive in order, and the server's answers must be readable by the client's codec.
+	obfStack := func(cid int, dc int, ps [][]byte) {
+		c.Obs.Evaluations++
+		var c2s bytes.Buffer
+		answer := &swapReader{}
+		o := obfuscated2.NewObfuscated2(c.Rng, rwPair{answer, &c2s})
+		tag := tx.NewCodec(cid, 0).(interface{ ObfuscatedTag() [4]byte }).ObfuscatedTag()
+		if err := o.Handshake(tag, dc, mtproxy.Secret{}); err != nil {
+			c.Violate("concurrent-setup", "obfuscated2 handshake failed: "+err.Error(), -1, 0, nil)
+			return
+		}
+		w := tx.NewCodec(cid, 0)
+		for _, p := range ps {
+			if err := w.Write(o, &bin.Buffer{Buf: append([]byte{}, p...)}); err != nil {
+				c.Violate("valid-write-refused-"+tx.CodecNames[cid], err.Error(), -1, 0, nil)
+			}
+		}
+		mc := &memConn{r: &tx.ChunkReader{Data: c2s.Bytes(), Rng: c.Rng.Fork()}}
+		var frames, sent [][]byte
+		var rerr error
+		p, pv := hx.Recover(func() {
+			conn, err := transport.Listen(transport.ObfuscatedListener(&oneListener{c: mc})).Accept()
+			if err != nil {
+				rerr = err
+				return
+			}
+			b := &bin.Buffer{}
+			for {
+				if err := conn.Recv(context.Background(), b); err != nil {
+					rerr = err
+					break
+				}
+				frames = append(frames, append([]byte{}, b.Buf...))
+			}
+			for _, n := range []int{16, 4 * c.Rng.Range(2, 140)} {
+				pl := c.Rng.Bytes(n)
+				pl[n-1] = byte(1 + c.Rng.Intn(3))
+				if err := conn.Send(context.Background(), &bin.Buffer{Buf: append([]byte{}, pl...)}); err != nil {
+					rerr = err
+					return
+				}
+				sent = append(sent, pl)
+			}
+		})
+		c.Count(fmt.Sprintf("obfuscated-listener:%s", tx.CodecNames[cid]))
+		c.Nontrivial(fmt.Sprintf("obf/%d/%d/%x", cid, dc, c2s.Bytes()[:16]))
+		ok := !p && len(frames) == len(ps) && errors.Is(rerr, io.EOF)
+		for i := 0; ok && i < len(ps); i++ {
+			ok = bytes.Equal(frames[i], ps[i])
+		}
+		js := map[string]interface{}{"obf_stack": cid, "dc": dc, "payloads": len(ps)}
+		if verbose {
+			fmt.Printf("replay: obfuscated listener, client codec %s: sent %d frames, server got %d then %v %v\n", tx.CodecNames[cid], len(ps), len(frames), rerr, pv)
+		}
+		if !ok {
+			c.Violate("obfuscated-listener-frames-not-delivered", fmt.Sprintf("%s client through obfuscated2 -> transport.Listen(ObfuscatedListener): sent %d frames, the accepted connection delivered %d then %v %v",
+				tx.CodecNames[cid], len(ps), len(frames), rerr, pv), -1, 0, js)
+			return
+		}
+		// the answers, decrypted by the client and read with its codec
+		answer.r = bytes.NewReader(mc.w.Bytes())
+		back, k2, _, _ := readAll(tx.NewCodec(cid, 0), o)
+		okBack := len(back) == len(sent) && k2 == tx.KEof
+		for i := 0; okBack && i < len(sent); i++ {
+			okBack = bytes.Equal(back[i], sent[i])
+		}
+		if !okBack {
+			c.Violate("obfuscated-listener-frames-not-delivered", fmt.Sprintf("%s client through obfuscated2: the accepted connection sent %d frames, the client read %d then %s",
+				tx.CodecNames[cid], len(sent), len(back), tx.KindNames[k2]), -1, 0, js)
+		}
+	}
+
 	// torn: a conn.Write fails in the middle of frame number `good` (write deadline); the frames
 	// sent before it must still be delivered, whatever happens afterwards.
 	torn := func(cid int, good int) {
@@ -736,6 +828,8 @@ func main() {
 		Accept     []int   `json:"accept"`
 		ListenC    *int    `json:"listen_codec"`
 		Torn       *int    `json:"torn"`
+		ObfStack   *int    `json:"obf_stack"`
+		DC         int     `json:"dc"`
 		Good       int     `json:"good"`
 		Concurrent *int    `json:"concurrent"`
 		Senders    int     `json:"senders"`
@@ -747,6 +841,8 @@ func main() {
 		case rp.Concurrent != nil:
 			concurrent(*rp.Concurrent, rp.Senders, rp.PerSender)
 			raceCheck()
+		case rp.ObfStack != nil:
+			obfStack(*rp.ObfStack, rp.DC, [][]byte{genPayload(16, -1), genPayload(512, -1), genPayload(8, -1)})
 		case rp.Torn != nil:
 			torn(*rp.Torn, rp.Good)
 		case rp.ListenC != nil:
@@ -947,6 +1043,20 @@ func main() {
 				listenCodec("listen-codec-other-tag", cid, other, nil, -1)
 				listenCodec("listen-codec-short", cid, headerOf(cid)[:c.Rng.Intn(len(headerOf(cid)))], nil, -1)
 			}
+		}
+	}
+	// ---------- with obfuscation: obfuscated2 client -> TCP obfuscated listener with auto-detection ----------
+	for cid := 0; cid < 3; cid++ {
+		for r := 0; r < c.N(4, 100); r++ {
+			var ps [][]byte
+			for k := c.Rng.Range(1, 4); k > 0; k-- {
+				n := 4 * c.Rng.Range(2, 40)
+				if c.Rng.Chance(1, 4) {
+					n = boundary[c.Rng.Intn(len(boundary))]
+				}
+				ps = append(ps, genPayload(n, -1))
+			}
+			obfStack(cid, []int{2, -2, 10002, 4, -32768}[c.Rng.Intn(5)], ps)
 		}
 	}
 	// ---------- a conn.Write that fails in the middle of a frame ----------
